@@ -18,6 +18,12 @@ the plain arrays is *not applicable* (not counted); everything else must give
 * or one of the refusals the documentation announces (``reduceat``, ``keepdims=True`` and
   ``outer`` with a non-element operand on discretized elements).
 
+Operands come as elements, ndarrays, broadcastable ndarrays, nested lists, Python / NumPy
+scalars and 0-d arrays, of the element's dtype and of every other dtype of the alphabet
+(NumPy's promotion of both operands decides numbers and result dtype).  Reductions also see
+special values: a NaN in each part / leaf in turn, infinities, signed zeros and pairs of them
+(0 and inf, inf and -inf, inf and NaN) in every ordered pair of leaves.
+
 Further sections: the legacy ``x.ufuncs.<name>()`` namespaces (tensor, discretized, product
 space; judged clause: agreement with the NumPy call on the same elements), the no-copy
 wrapping / ``asarray`` round trip, the base-class ``Tensor.__array_ufunc__`` and the H-part:
@@ -2421,6 +2427,16 @@ def meta(tier):
                     'tuples',
             'dtype keyword': DTYPE_KW,
             'legacy names': len(OU.UFUNCS) + 4,
+            'operand dtypes': 'second / first operand of EVERY other dtype of the alphabet '
+                              '(wider, narrower, other kind) as ndarray, nested list, Python '
+                              'scalar, NumPy scalar, 0-d array, element of the sibling space; '
+                              'np.<ufunc> calls (both orders), legacy interface, ufunc.at '
+                              'values, ufunc.outer operands, one in-place history step',
+            'special values (reductions)': 'NaN at each leaf in turn, +-inf, signed zeros, and '
+                                           'the pairs %s at every ordered pair of distinct leaf '
+                                           'positions' % (MIXED_SPECIALS,),
+            'wrapping': 'array (C / F / strided), list, other dtype, read-only, order=, '
+                        'data_ptr= of an array and of an element',
             'power-space part layouts': PART_LAYOUTS,
         },
         'assumptions': [
